@@ -119,7 +119,7 @@ Definition sev_of (r : prec) : sev :=
   | XWrite p => SWrite (p_end r) p (p_obs r)
   | XRead n => SRead (negb (p_end r)) n (p_obs r)      (* Conn1 reads the direction Conn2 -> Conn1 *)
   | XClose => SClose
-  | XWriteStart p => match p_obs r with ObParked => SOther | o => SWrite (p_end r) p o end
+  | XWriteStart p => match p_obs r with ObParked => SWritePark (p_end r) p | o => SWrite (p_end r) p o end
   | XWriteJoin p => SWriteLate (p_end r) p (p_obs r)
   | XReadStart n => match p_obs r with ObParked => SOther | o => SRead (negb (p_end r)) n o end
   | XReadJoin n => SRead (negb (p_end r)) n (p_obs r)
